@@ -280,8 +280,8 @@ func compareCodec(c *Ctx, rule, name string, enc, dec *prog.Func, declared int64
 		m := map[string]codecEntry{}
 		for _, e := range t {
 			e2 := e
-			if e2.Base != "" && e2.Base != "?" {
-				e2.Base = "rel"
+			if e2.Base != "?" {
+				e2.Base = "" // writer and reader address their buffers differently; only relative ranges are compared
 			}
 			k := tableKey(e2)
 			for i := 2; ; i++ {
@@ -312,7 +312,7 @@ func compareCodec(c *Ctx, rule, name string, enc, dec *prog.Func, declared int64
 			c.viol(rule, key+" "+w.String(), w.Pos, "writer uses "+w.Field)
 			continue
 		}
-		if w.Hi > extent && w.Base == "" {
+		if w.Hi > extent {
 			extent = w.Hi
 		}
 		r, ok := dm[k]
